@@ -56,6 +56,10 @@ cbv1 = Function("cbv1", Ref, Ref, Ref)                 # value of f(a) for value
 flt = Function("flt", Ref, RSeq, RSeq)                 # List.filter (keep f): the elements w with f None or f(w) true
 cls_has = Function("cls_has", Cls, Str, Bool)          # the class provides the attribute (method, property, class attribute)
 cls_get = Function("cls_get", Ref, Str, Ref)           # value of a class-provided attribute on an instance
+int_unbox = Function("int_unbox", Ref, Int)             # the int behind an opaque attribute value
+hexid = Function("hexid", Ref, Ref)                    # hex(id(obj)) as an opaque label value
+ISeq = SeqSort(IntSort())
+joined = Function("net_joined", ISeq, ISeq, Int, Int, Bool)   # some edge record joins the two ids (either orientation)
 delnth = Function("delnth", RSeq, Int, RSeq)           # List.eraseIdx (del s[i], 0 <= i < len s)
 minus = Function("minus", RSeq, RSeq, RSeq)            # List.diff: remove one occurrence of each element of the second list
 
